@@ -14,7 +14,7 @@ BY_VAL = {0: ["C", "N", "O", "S", "[Si]", "Cl"], 1: ["C", "N", "O", "F", "Cl", "
 
 IDS = [-1, -1, 0, 1, 7, 12, 123]
 WEIGHTS = [(None, ""), (None, ""), ("2", "|2|"), ("0.5", "|0.5|"), ("2", "|2.|"), ("0.5", "|.5|"), ("2", "|2e0|"), ("3", "| 3 |"),
-           ("0", "|0|"), ("10.25", "|10.25|")]
+           ("0", "|0|"), ("10.25", "|10.25|"), ("0.00001", "|1e-5|"), ("25000000000000000", "|2.5e16|")]      # (the last two PRINT in exponent notation)
 LISTS = [(["1", "2", "3"], "|1 2 3|"), (["1", "0", "0.5"], "|1. 0 .5|"), (["0", "0"], "|0 0|"), (["2", "2", "2", "2"], "| 2 2  2 2 |")]
 
 
